@@ -725,6 +725,16 @@ func IsValidFilter(filter string, forPublish bool) bool {
 		return false
 	}
 
+	// wildcards must occupy an entire level [MQTT-4.7.1-2] [MQTT-4.7.1-3]
+	for start, i := 0, 0; i <= len(filter); i++ {
+		if i == len(filter) || filter[i] == '/' {
+			if i-start > 1 && strings.ContainsAny(filter[start:i], "+#") {
+				return false
+			}
+			start = i + 1
+		}
+	}
+
 	prefix, hasNext := isolateParticle(filter, 0)
 	if !hasNext && strings.EqualFold(prefix, SharePrefix) {
 		return false // [MQTT-4.8.2-1]
@@ -732,12 +742,16 @@ func IsValidFilter(filter string, forPublish bool) bool {
 
 	if hasNext && strings.EqualFold(prefix, SharePrefix) {
 		group, hasNext := isolateParticle(filter, 1)
-		if !hasNext {
+		if !hasNext || len(group) == 0 {
 			return false // [MQTT-4.8.2-1]
 		}
 
 		if strings.ContainsRune(group, '+') || strings.ContainsRune(group, '#') {
 			return false // [MQTT-4.8.2-2]
+		}
+
+		if len(filter) == len(prefix)+len(group)+2 {
+			return false // [MQTT-4.8.2-1] the share name must be followed by a topic filter
 		}
 	}
 
